@@ -172,7 +172,7 @@ class Engine(EngineBase):
             self._run(sc, world, res)
             res["digest"] = world.digest()
             res["stats"]["steps"] = world.seq
-            res["stats"]["sim_ms"] = world.clock_ms - 1_000_000_000
+            res["stats"]["sim_ms"] = world.clock_ms - 1_000_000_000_000
         return res
 
     def _setup(self, sc, world):
